@@ -205,12 +205,11 @@ Graded == Family \notin {"model", "conc"} => DbInGrid(prog.db, prog.cfg)
 ModelDB  == << NthBuild(1, "2024-01-01T10:00:00+09:00", FALSE), NthBuild(2, "2024-01-01T05:00:00+00:00", FALSE), Other >>
 ModelCFG == BaseCfg
 ModelReqs ==
-  {[cls |-> "valid", tr |-> tr, product |-> p, ep |-> ep] : tr \in {"v1", "v2", "http"}, p \in {"wow", "wow_classic"},
-                                                             ep \in {"versions", "cdns"}} \cup
-  {[cls |-> "valid", tr |-> "v1", product |-> "wow", ep |-> "summary"]} \cup
-  {[cls |-> "valid", tr |-> tr, product |-> "nosuch", ep |-> "versions"] : tr \in {"v1", "http"}} \cup
-  {[cls |-> c, tr |-> tr] : c \in {"wrong_arity_short", "eof", "oversized", "nonutf8", "never_terminated", "silent"},
-                            tr \in {"tcp", "http"}}
+  {[cls |-> "valid", tr |-> tr, product |-> "wow", ep |-> ep] : tr \in {"v1", "v2", "http"}, ep \in {"versions", "cdns"}} \cup
+  {[cls |-> "valid", tr |-> "v1", product |-> "wow_classic", ep |-> "bgdl"],
+   [cls |-> "valid", tr |-> "v1", product |-> "wow", ep |-> "summary"]} \cup
+  {[cls |-> "valid", tr |-> tr, product |-> "nosuch", ep |-> "versions"] : tr \in {"v2", "http"}} \cup
+  {[cls |-> c, tr |-> tr] : c \in {"wrong_arity_short", "nonutf8", "never_terminated", "silent"}, tr \in {"tcp", "http"}}
 ModelInit == Init /\ prog = NoProg /\ hist = <<>> /\ probes = 0
 ModelNext == Next /\ UNCHANGED <<prog, hist, probes>>
 SH(c) == ServerHandle(c) /\ UNCHANGED <<prog, hist, probes>>
